@@ -44,9 +44,21 @@ META = dict(
                  'symbolic values handed to a typed container, slice assignment, containers held by frozen fields and Dict/List specs inside Tuple specs are covered by the oracle only',
                  'user transforms, regular expressions, Callable/Type specs, forward references are outside the model (as in C04)'],
 )
-META['level_text'] = ('Theorems over Model/SymCoreTyped.v (see design/C03.md for the list and which are partial). Tie: the model is run against the implementation on every generated case '
-                      'and after every step the snapshots (kind, flags, bound spec, keys, values) must be identical; the direct oracle checks the five clauses of the property on the live objects.')
-META['level_note'] = ('Trusted: Coq kernel; extraction cross-checked against vm_compute; the drivers and generators. Modelled, not verified: the Python code itself (tied by the correspondence only).')
+META['level_text'] = (
+    'Theorems over Model/SymCoreTyped.v (SymCore forests whose nodes carry value specs; typed write path = Typing.apply of the field, then store): '
+    'C03_schema_invariant_partial — every history of the 29 modelled operations (successful and refused calls, any scope stack) from any constructed forest keeps Conforms: '
+    'for every schema-carrying node, only declared keys, every declared key present, each leaf member accepted by its field and mapped to itself, frozen fields equal to their '
+    'frozen value, MISSING_VALUE only when the value was made partial, list sizes within bounds, each dict/list member bound to the spec its field routes it to '
+    '(C03_conforms_list / C03_conforms_dict spell this out); partial: table specs union-free with atomic frozen / Enum values, written values are plain Python values. '
+    'C03_rejected_not_stored (full): a refused non-batch operation on a member-checking target leaves the whole state unchanged; C03_rejected_batch_prefix / _extend_prefix: a refused batch '
+    'leaves what its elements before the refused one produce. Refutation witnesses for the two open findings inside the model (container held by a frozen field; Union result not a fixed point). '
+    'Tie: the model is run against typed pg.Dict / pg.List / pg.Object on every generated case (corpus, write-path x spec-kind x value-class sweep, random histories) and the '
+    'snapshots (kind, flags, bound spec, keys, values) after construction and after every step must be identical (a history is compared up to the first step that stores a value its '
+    'own field does not map to itself -- open Union finding; the count is in extra.compared_up_to_first_non_fixpoint_store); the direct oracle re-applies every bound spec with the real library.')
+META['level_note'] = (
+    'Trusted: Coq kernel; extraction (ExtrOcamlBasic) cross-checked against vm_compute on a sample; the drivers, generators and the spec rendering of harness/props/c04.py. '
+    'Modelled, not verified: the Python code itself (tied by the correspondence only). Outside the model (direct oracle only): symbolic values handed to a typed container '
+    '(custom_apply path), slice assignment, containers held by frozen fields, Dict/List specs inside Tuple specs; user transforms, regex, Callable/Type specs, forward references.')
 
 LSETSLICE = 16
 OP_NAMES = dict(D.OP_NAMES); OP_NAMES[LSETSLICE] = 'List.__setitem__(slice)'
@@ -416,6 +428,28 @@ def check_forest(impl):
   return hits
 
 NONFIX_SIGNATURE = 'C03/member-not-fixpoint/apply/Union-result-dispatches-to-another-candidate'
+FOREIGN_SIGNATURE = 'C03/symbolic-value/child-keeps-its-own-spec/later-write'
+
+def foreign_specs(impl):
+  """Symbolic children that carry a value spec other than the Dict / List spec their field declares (a typed value that the field
+  accepted because is_compatible said so keeps its own spec, and later writes into it are checked against that spec only)."""
+  P = pg(); out = []
+  for root in impl.roots:
+    if root is None: continue
+    def visit(x, parent, key):
+      if parent is None: return
+      try:
+        ps, s = impl.spec_of(parent), impl.spec_of(x)
+        if ps is None or s is None: return
+        if isinstance(parent, P.List): f = ps.element.value
+        else:
+          fd = ps.schema.get_field(key) if ps.schema is not None else None
+          f = fd.value if fd is not None else None
+        if isinstance(f, (P.typing.List, P.typing.Dict)) and f != s: out.append(x)
+      except Exception:     # pylint: disable=broad-except
+        pass
+    D.walk(root, visit)
+  return out
 BATCH_OPS = {D.LEXTEND, D.LIADD, D.LIMUL, D.DUPDATE, D.DIOR, D.REBIND, LSETSLICE}
 
 def content_of(snap):
@@ -508,6 +542,8 @@ class Oracle:
     constructed one) written into a spec-checked container, and a write below the container held by a frozen field."""
     if self.by_reference:
       return 'C03/symbolic-value/%s/%s' % ('required-missing' if clause == 'required-missing' else 'other-clause', 'rejected' if res[0] == 1 else 'accepted')
+    if clause in ('member-rejected', 'member-not-fixpoint', 'required-missing', 'frozen-differs') and foreign_specs(impl):
+      return FOREIGN_SIGNATURE
     if disc == 'Union-dispatch':
       return NONFIX_SIGNATURE
     if disc.endswith('.frozen') and clause in ('member-rejected', 'frozen-differs', 'member-not-fixpoint'):
@@ -530,6 +566,16 @@ def walk_spec(t, fn, in_tuple=False):
   elif k == 9:
     for c in t[1]: walk_spec(c, fn, in_tuple)
 
+def noneable_container_under_default(t, above=False):
+  """A noneable Dict / List spec at or below a spec whose default holds a dict / list: symbolic_transform_fn refuses the plain
+  container of the default (ensure_value_spec(noneable spec, Dict()) is 'not compatible') -- a TypeError outside the model."""
+  n, d, fz = t[-1]
+  here = above or bool(d and has_container(d[0]))
+  if t[0] in (5, 7) and n and here: return True
+  k = t[0]
+  kids = [t[1]] if k == 5 else list(t[1]) if k in (6, 9) else [fs for _, fs in t[1][0]] if (k == 7 and t[1]) else []
+  return any(noneable_container_under_default(c, here) for c in kids)
+
 def supported(t):
   """Inside the modelled vocabulary: no Dict / List spec inside a Tuple spec (a symbolic container inside a tuple is not a tree node)."""
   bad = []
@@ -551,7 +597,7 @@ def supported(t):
     # a Union with a dict / list default: symbolic_transform_fn looks the candidate up with Union.get_candidate(Dict()), which can fail
     if s[0] == 9 and d and has_container(d[0]): bad.append(s)
   walk_spec(t, fn)
-  return not bad
+  return not bad and not noneable_container_under_default(t)
 
 def has_missing(pv):
   if pv[0] == 1: return True
@@ -916,6 +962,16 @@ def scope_restrictive(scope):
   Schema.apply completes it through __setitem__ (WritePermissionError from inside the write) -- outside the model."""
   return D.eff(scope[0]) is True or D.eff(scope[1]) is False
 
+def unfilled(impl, x):
+  """An object at or below x that does not accept partial values and has an unfilled attribute: a copy constructs it again through
+  the class, which is refused (dicts and lists are copied pass_through)."""
+  P = pg()
+  found = []
+  def visit(n, parent, key):
+    if isinstance(n, P.Object) and typed_members(impl, n) and not n._allow_partial and any(v is P.MISSING_VALUE for _, v in D.sym_children(n)): found.append(n)
+  D.walk(x, visit)
+  return bool(found)
+
 def any_typed(impl, x):
   found = []
   def visit(n, parent, key):
@@ -928,14 +984,17 @@ def value_supported(impl, x, v, scope):
     return True
   while v[0] == 2: v = v[1]
   if v[0] == 3:
-    return not ((scope_partial(scope) is not None or scope_restrictive(scope)) and has_container(v[1]))
+    # MISSING_VALUE stands for the default of the field, which may hold dicts / lists
+    return not ((scope_partial(scope) is not None or scope_restrictive(scope)) and (has_container(v[1]) or v[1] == [1]))
   if v[0] == 0:
     return v[1][0] == 0
   if v[0] == 1:
     try:
-      return not D.is_sym(impl.at((v[1], v[2])))
+      y = impl.at((v[1], v[2]))
     except D.NotApplicable:
       return True
+    if D.is_sym(y): return False
+    return not ((scope_partial(scope) is not None or scope_restrictive(scope)) and y is pg().MISSING_VALUE)
   return False
 
 def lit_has_obj(l):
@@ -950,6 +1009,23 @@ def op_supported(impl, scope, op):
   for x, v in written(impl, op):
     if not value_supported(impl, x, v, scope):
       return False
+  if (scope_restrictive(scope) or scope_partial(scope) is not None) and op[0] in (D.DDEL, D.DPOP, D.DCLEAR):
+    # removing a declared key stores the default of its field, like assigning MISSING_VALUE
+    try:
+      t = impl.at(op[1])
+    except D.NotApplicable:
+      t = None
+    if t is not None and D.is_sym(t) and typed_members(impl, t): return False
+  if scope_restrictive(scope) or scope_partial(scope) is not None:
+    # a value given by reference that has typed containers inside: if it has to be copied on the way, the copy is constructed under the scope
+    for v in _op_values(op):
+      while v[0] == 2: v = v[1]
+      if v[0] == 1:
+        try:
+          y = impl.at((v[1], v[2]))
+        except D.NotApplicable:
+          continue
+        if D.is_sym(y) and any_typed(impl, y): return False
   tag = op[0]
   if tag in (D.LIMUL, D.LMUL, D.LADD, D.LCOPY, D.CLONE, D.DCOPY, D.LEXTEND, D.LIADD):
     # re-inserting / copying typed symbolic children goes through the compatibility path of custom_apply (not modelled yet)
@@ -962,6 +1038,8 @@ def op_supported(impl, scope, op):
     if tag in (D.LIMUL, D.LMUL, D.LADD, D.LCOPY) and typed_members(impl, t) and any(D.is_sym(v) for _, v in D.sym_children(t)):
       return False
     if tag in (D.LMUL, D.LADD, D.LCOPY, D.DCOPY, D.CLONE) and (scope_restrictive(scope) or scope_partial(scope) is not None) and any_typed(impl, t):
+      return False
+    if tag in (D.LMUL, D.LADD, D.LCOPY, D.DCOPY, D.CLONE) and unfilled(impl, t):
       return False
   return True
 
@@ -1044,6 +1122,13 @@ def open_witnesses():
   out['spec-bound-before-validation'] = mkcase(tb2, [troot(0, Di, {'y': {'b': True}}), [0, D.mk({'c': 2})]], [(NS, [D.DSET, Pp(0), 0, ek('y'), [1, 1, []]])])
   tb3 = Table(); An = tb3.add(T.Dict([('x', T.Any())])); Pa = tb3.add(T.Dict([('c', T.Int()), ('b', T.Bool(default=True))]))
   out['partial-flag-overridden'] = mkcase(tb3, [troot(0, An, {'x': 1}), troot(0, Pa, {}, partial=1)], [(NS, [D.DSET, Pp(0), 0, ek('x'), [1, 1, []]])])
+  tb5 = Table(); Fa = tb5.add(T.Dict([('x', T.Union([T.Int(), T.Any().freeze(1)]))])); Li = tb5.add(T.List(T.Int()))
+  out['typed-value-accepted-by-compatibility-only'] = mkcase(tb5, [troot(0, Fa, {'x': 2}), troot(1, Li, [])], [(NS, [D.DSET, Pp(0), 0, ek('x'), [1, 1, []]])])
+  tb6 = Table(); Ay = tb6.add(T.Dict([('x', T.Any()), ('y', T.Int())])); Pb = tb6.add(T.Dict([('c', T.Int()), ('b', T.Bool(default=True))]))
+  out['partial-flag-overridden-in-a-refused-batch'] = mkcase(tb6, [troot(0, Ay, {'x': 1, 'y': 1}), troot(0, Pb, {}, partial=1)],
+                                                             [(NS, [D.DUPDATE, Pp(0), [[ek('x'), [1, 1, []]], [ek('y'), PV('bad')]]])])
+  tb7 = Table(); Ll = tb7.add(T.List(T.List(T.Union([T.Int(), T.Any().freeze(1)]))))
+  out['typed-child-keeps-its-own-spec'] = mkcase(tb7, [troot(1, Ll, [])], [(NS, [D.LINSERT, Pp(0), 0, [1, 0, []]]), (NS, [D.REBIND, Pp(0), [[[ek(0), ek(0)], PV([None])]]])])
   tb4 = Table(); Un = tb4.add(T.Dict([('a', T.Union([T.Enum(True, [1, 'a']).freeze(), T.Bool().freeze(False)]))]))
   out['union-result-dispatches-to-another-candidate'] = mkcase(tb4, [troot(0, Un, {}, partial=1)], [(NS, [D.DSET, Pp(0), 0, ek('a'), PV(1.0)])])
   return out
@@ -1238,7 +1323,7 @@ def run(ctx):
     if rng.random() < keep:
       c[0] = list(quirks); cases.append(c); kinds.append('sweep:' + lab)
   ctx.extra['sweep'] = dict(total=len(sweep), run=sum(1 for k in kinds if k.startswith('sweep')), exhaustive=bool(ctx.thorough))
-  n = ctx.scale(900, 40000)
+  n = ctx.scale(900, 25000)
   gens = [(TGen(rng, quirks), 'random', 0.6), (TGen(rng, quirks, p_invalid=0.5), 'random-invalid', 0.2),
           (TGen(rng, quirks, focus={D.REBIND, D.DUPDATE, D.LEXTEND, D.LIADD, D.LIMUL, D.DCLEAR, D.LCLEAR, D.DPOP, D.LPOP, D.LDEL}), 'batch-and-removal', 0.2)]
   for g, kind, w in gens:
@@ -1248,6 +1333,26 @@ def run(ctx):
     run_one(ctx, case, kind, True, impl_outs)
   ctx.log('implementation ran %d cases in %.1fs' % (len(cases), time.time() - t0))
   model_outs = ctx.model_run(cases)
+  # Open finding (Union result dispatched to another candidate): from the first point at which a value that its own field does not
+  # map to itself is stored, the code's behaviour depends on how often each write path happens to re-apply the field (a constructor
+  # and a copy apply twice, __setitem__ once).  The model is run a second time with the flag off (there such a store is an error);
+  # where the two model runs part is that point, and the history is compared up to it.  Nothing is cut once the finding is repaired.
+  if nonfix:
+    strict = ctx.model_run([[c[0][:-1] + [0]] + c[1:] for c in cases], vm_sample=0)
+    cut = dict(histories=0, at_construction=0, steps_dropped=0)
+    for i, (b, b0) in enumerate(zip(model_outs, strict)):
+      if b == b0 or not (isinstance(b, list) and len(b) == 3 and isinstance(b0, list) and len(b0) == 3): continue
+      cut['histories'] += 1
+      a = impl_outs[i]
+      if b[0] != b0[0] or b[1] != b0[1]:
+        cut['at_construction'] += 1; cut['steps_dropped'] += len(b[2])
+        impl_outs[i] = model_outs[i] = [[], [], []]      # not compared
+        continue
+      j = next(k for k, (x, y) in enumerate(zip(b[2], b0[2])) if x != y)
+      cut['steps_dropped'] += len(b[2]) - j
+      model_outs[i] = [b[0], b[1], b[2][:j]]
+      if isinstance(a, list) and len(a) == 3: impl_outs[i] = [a[0], a[1], a[2][:j]]
+    ctx.extra['compared_up_to_first_non_fixpoint_store'] = cut
   diffs = {}
   for c, a, b in zip(cases, impl_outs, model_outs):
     if a != b:
@@ -1257,7 +1362,7 @@ def run(ctx):
   # --- oracle only: symbolic values written into typed containers, slice assignment, frozen containers (outside the model)
   t1 = time.time()
   wild = TGen(rng, quirks)
-  nw = ctx.scale(250, 8000)
+  nw = ctx.scale(250, 5000)
   for _ in range(nw):
     run_one(ctx, wild.case(rng.choice([4, 8, 10]), wild=True), 'oracle-only', False, [], sample_ok=False)
   ctx.log('oracle-only histories: %d in %.1fs' % (nw, time.time() - t1))
